@@ -23,14 +23,14 @@ type CLIRun struct {
 }
 
 type CLIJob struct {
-	Src      []byte   // written to <dir>/<SrcName> unless nil
-	SrcName  string   // default in.nas
-	OutName  string   // default out.bin
-	Args     []string // explicit argument vector (relative paths are relative to the job directory); nil = [SrcName OutName]
-	Prefill  []byte   // written to the output path before the run (nil = no file)
-	Env      []string
-	Setup    func(dir string) // extra preparation (directories, permissions)
-	KeepDir  bool
+	Src     []byte   // written to <dir>/<SrcName> unless nil
+	SrcName string   // default in.nas
+	OutName string   // default out.bin
+	Args    []string // explicit argument vector (relative paths are relative to the job directory); nil = [SrcName OutName]
+	Prefill []byte   // written to the output path before the run (nil = no file)
+	Env     []string
+	Setup   func(dir string) // extra preparation (directories, permissions)
+	KeepDir bool
 }
 
 func (e *Env) RunCLI(jobs []CLIJob) []CLIRun {
